@@ -83,6 +83,25 @@ def lit_fraction(text_or_float):
     return f
 
 
+class ShFrac(Fraction):
+    """Concrete value with a float64 shadow: the exact result of the operations so far plus the double the real code holds,
+    kept only when that double is not the correctly rounded exact value (1 - 0.9 is 1/10 exactly and 0.09999999999999998 in
+    float64).  Comparisons that come out differently on the shadow are reported (Arith.pending_divergence)."""
+
+    def __new__(cls, val, sh):
+        obj = Fraction.__new__(cls, val)
+        obj.sh = sh
+        return obj
+
+
+def shadow_of(v):
+    if isinstance(v, ShFrac):
+        return v.sh
+    if isinstance(v, bool):
+        return float(int(v))
+    return float(v)
+
+
 def to_z3(v):
     if is_sym(v):
         return v
@@ -255,6 +274,8 @@ class Arith:
         self.extra_funcs = {}
         self.fresh_n = 0
         self.ratio_mode = False
+        self.shadow = False      # carry float64 shadows on concrete values (ShFrac) and report diverging comparisons
+        self.pending_divergence = []
         self.real_compare = False
         self._in_lift = False
         self.nf_events = []
@@ -478,7 +499,7 @@ class Arith:
         if is_nonfinite(a) or is_nonfinite(b):
             return self._nf_binop("add", a, b)
         if not is_sym(a) and not is_sym(b):
-            return self._c(a + b)
+            return self._sh("add", a, b, self._c(a + b))
         if not is_sym(a) and a == 0:
             return b
         if not is_sym(b) and b == 0:
@@ -501,7 +522,7 @@ class Arith:
         if is_nonfinite(a) or is_nonfinite(b):
             return self._nf_binop("sub", a, b)
         if not is_sym(a) and not is_sym(b):
-            return self._c(a - b)
+            return self._sh("sub", a, b, self._c(a - b))
         if not is_sym(b) and b == 0:
             return a
         if is_sym(a) and is_sym(b) and a.eq(b):
@@ -526,6 +547,21 @@ class Arith:
             return int(x.numerator)
         return x
 
+    def _sh(self, op, a, b, r):
+        """Attach the float64 shadow to a concrete result when it differs from the rounded exact value (shadow mode)."""
+        if not self.shadow or self.concrete or is_sym(r) or isinstance(r, (bool, float)) or not isinstance(r, (int, Fraction)):
+            return r
+        if isinstance(r, int) and not isinstance(a, ShFrac) and not isinstance(b, ShFrac) and op != "div":
+            return r
+        try:
+            fa, fb = shadow_of(a), shadow_of(b)
+            s = fa + fb if op == "add" else fa - fb if op == "sub" else fa * fb if op == "mul" else fa / fb
+            if s == float(r) or s != s or s in (float("inf"), float("-inf")):
+                return r
+        except (OverflowError, ZeroDivisionError, TypeError, ValueError):
+            return r
+        return ShFrac(r, s)
+
     def _ratio(self, v):
         return v if isinstance(v, Ratio) else Ratio(v, 1, 1)
 
@@ -545,7 +581,7 @@ class Arith:
         if is_nonfinite(a) or is_nonfinite(b):
             return self._nf_binop("mul", a, b)
         if not is_sym(a) and not is_sym(b):
-            return self._c(a * b)
+            return self._sh("mul", a, b, self._c(a * b))
         if is_sym(a) and not is_sym(b):
             a, b = b, a
         if not is_sym(a):
@@ -618,7 +654,7 @@ class Arith:
             if not is_sym(a):
                 if self.concrete:
                     return a / b
-                return self._c(Fraction(a) / Fraction(b))
+                return self._sh("div", a, b, self._c(Fraction(a) / Fraction(b)))
             return to_z3(Fraction(1) / Fraction(b)) * to_real(a)
         tb = self.const_tree(b)
         if tb is None and self.tree_mode and is_sym(b):
@@ -767,7 +803,16 @@ class Arith:
                 return (op in (">", ">=")) if pos else (op in ("<", "<="))
             return (op in ("<", "<=")) if pos else (op in (">", ">="))
         if not is_sym(a) and not is_sym(b):
-            return _pycmp(op, a, b)
+            r = _pycmp(op, a, b)
+            if self.shadow and (isinstance(a, ShFrac) or isinstance(b, ShFrac)):
+                try:
+                    rf = _pycmp(op, shadow_of(a), shadow_of(b))
+                except (OverflowError, TypeError, ValueError):
+                    rf = r
+                if rf != r:
+                    self.pending_divergence.append(f"{Fraction(a)} {op} {Fraction(b)} is {r} exactly and {rf} in float64 "
+                                                   f"({shadow_of(a)!r} {op} {shadow_of(b)!r})")
+            return r
         if is_sym(a) and is_sym(b) and a.eq(b):
             return op in ("==", "<=", ">=")
         ta, tb = to_z3(a), to_z3(b)
